@@ -94,6 +94,30 @@ def replay_case(arg):
                 exp_sw = np.array([0.0 if k == 99 else 2.0 ** (k - c["kmax"]) for k in ks])
                 if not np.allclose(sw, exp_sw, rtol=64 * eps * scale, atol=0):
                     out["viol"].append((f"WeightDef|scaled|{tag}", f"scaled_weights {sw.tolist()} != w/max w {exp_sw.tolist()}"))
+                # 5b. a selection of a weighted set is a weighted set: its ESS is the functional of the
+                #     selected weights (exact rational from the lattice exponents), whatever the shift
+                sels = [("slice", slice(0, n - 1), list(range(n - 1))),
+                        ("mask", np.array([(i + ci) % 2 == 0 for i in range(n)]), [i for i in range(n) if (i + ci) % 2 == 0]),
+                        ("index", np.array(list(range(n - 1, -1, -1))[: max(2, n - 1)]), list(range(n - 1, -1, -1))[: max(2, n - 1)])]
+                for sname, sel, rows in sels:
+                    live = [ks[i] for i in rows if ks[i] != 99]
+                    if not live:
+                        continue
+                    km = max(live)
+                    num = sum(mpm.mpf(2) ** (k - km) for k in live) ** 2
+                    den = sum(mpm.mpf(2) ** (2 * (k - km)) for k in live)
+                    e_sel = float(num / den)
+                    try:
+                        sub = s[smcdrv.sel_to_ns(sel, ns)]
+                        v = float(smcdrv.to_np(sub.effective_sample_size))
+                    except Exception as ex:
+                        out["viol"].append((f"NeverRaises|select:{sname}|{tag}|{type(ex).__name__}", f"selection raised {type(ex).__name__}: {str(ex)[:120]}"))
+                        continue
+                    if not (math.isfinite(v) and abs(v - e_sel) <= rel * e_sel + rel):
+                        out["viol"].append((f"EssDef|select:{sname}|{tag}", f"ESS of the {sname} selection rows {rows} is {v!r}, (sum w)^2/sum w^2 of the selected weights = {e_sel!r} (ks={ks})"))
+                    slw = smcdrv.to_np(sub.log_w).astype(np.float64)
+                    if not np.all(np.where(dead[rows], np.isneginf(slw), np.abs(slw - exp_lw[rows]) <= tol_log)):
+                        out["viol"].append((f"WeightDef|select:{sname}|{tag}", f"log_w of selection {slw.tolist()} != rows {rows} of {exp_lw.tolist()}"))
                 out["perm"].append(((tuple(sorted(ks)), tuple(c["split"]), ns, dt, sh), (le, float(smcdrv.to_np(s.effective_sample_size)), lee)))
                 # 6. rejection sampling with scripted uniforms on the lattice 2^-j (boundary excluded)
                 js = []
@@ -124,7 +148,7 @@ def main(prop, tier, seed, replay_path=None):
     consts = {"R": "= 3", "NMin": "= 2", "NMax": "= 3" if tier == "quick" else "= 5",
               "Splits": "<- MCSplits", "MaxCases": "= 3000" if tier == "quick" else "= 40000"}
     cases, r, ncases = tlacases.export_cases("MC_Weights", consts, name="weights", timeout=3000)
-    nss = ["numpy", ["torch", "jax"][seed % 2]] if tier == "quick" else ["numpy", "torch", "jax"]
+    nss = ["numpy", "torch", "jax"]
     combos_all = [(ns, dt) for ns in nss for dt in ("float64", "float32")]
     shifts = [0, 2 ** 17, -(2 ** 17)]
     if replay_path:
